@@ -451,8 +451,17 @@ func c01Set(x *c01ctx, rng *rand.Rand, D []int) {
 			p = refimpl.NewDProver(pk, cred.C.Signature, dis, hid)
 			x.try("E-index", fmt.Sprintf("%s hidden[%d]=%d (unsigned index)", desc, idx, val), p.ProveD(x.ctx, x.non, false))
 		}
-		if idx > n+1 {
-			break
+		if idx > n+1 && idx < len(pk.R)-2 {
+			idx = len(pk.R) - 2 // first two unsigned indices, then the last base of the key
+		}
+	}
+	// ... and the same entries simply added to the honest proof (nothing else touched): an index the issuer never signed stands
+	// for the signed value 0, any other value reported there is unsigned - at every base of the key up to the last one
+	for idx := n; idx < len(pk.R); idx++ {
+		for _, val := range []*big.Int{bi(7), pow2(300), bi(0)} {
+			d := cloneD(honest)
+			d.ADisclosed[idx] = cp(val)
+			x.try("E-index-injected", fmt.Sprintf("%s disclosed[%d]=%s added to the honest proof (unsigned index)", desc, idx, dumpInt(val)), d)
 		}
 	}
 	// G. digest / pre-image confusion at the message-length boundary: the issuer signed m = SHA-256(x) as an ordinary
